@@ -75,6 +75,7 @@ func (g *Gen) run() {
 			g.assume("true", t)
 		}
 	}
+	g.addInputModelVars(st)
 	g.entry = st.clone()
 
 	// process blocks in reverse postorder of the back-edge-cut graph
@@ -2119,4 +2120,43 @@ func (g *Gen) initVarSlice(name string) {
 		}
 	}
 	g.note("package initializer of " + g.fn.Pkg.Pkg.Path() + " restricted to the initializer of variable " + name + " (the rest of the initializer is not executed)")
+}
+
+
+// replayElems: how many leading elements of a slice / string parameter are asked from the solver's model, so that a
+// counterexample can be rebuilt as a Go value and replayed against the real code.
+const replayElems = 16
+
+// addInputModelVars registers, for every parameter that is a string or a slice of a basic type, its length and its
+// first replayElems elements (entry state) as model variables.
+func (g *Gen) addInputModelVars(st *State) {
+	for _, p := range g.fn.Params {
+		v, ok := g.params[p.Name()]
+		if !ok || v.S == nil {
+			continue
+		}
+		switch u := p.Type().Underlying().(type) {
+		case *types.Basic:
+			if u.Info()&types.IsString == 0 || v.S.K != KStr {
+				continue
+			}
+			g.modelVars = append(g.modelVars, ModelVar{Name: p.Name() + "#len", Term: fmt.Sprintf("(gstr.len %s)", v.T), Sort: g.idxSort().SMT()})
+			for k := 0; k < replayElems; k++ {
+				g.modelVars = append(g.modelVars, ModelVar{Name: fmt.Sprintf("%s#%d", p.Name(), k), Term: fmt.Sprintf("(gstr.at %s %s)", v.T, g.idxLit(int64(k))), Sort: g.byteSort().SMT()})
+			}
+		case *types.Slice:
+			eb, isBasic := u.Elem().Underlying().(*types.Basic)
+			if !isBasic || eb.Info()&(types.IsInteger|types.IsBoolean|types.IsFloat) == 0 || v.S.K != KSlice {
+				continue
+			}
+			es := g.sortOf(u.Elem())
+			name, sort := g.elemMapName(es)
+			h := g.heapGet(st, name, sort)
+			g.modelVars = append(g.modelVars, ModelVar{Name: p.Name() + "#len", Term: fmt.Sprintf("(sl.len %s)", v.T), Sort: g.idxSort().SMT()})
+			for k := 0; k < replayElems; k++ {
+				t := fmt.Sprintf("(select (select %s (sl.arr %s)) %s)", h, v.T, g.idxAdd(fmt.Sprintf("(sl.off %s)", v.T), g.idxLit(int64(k))))
+				g.modelVars = append(g.modelVars, ModelVar{Name: fmt.Sprintf("%s#%d", p.Name(), k), Term: t, Sort: es.SMT()})
+			}
+		}
+	}
 }
